@@ -8,12 +8,14 @@ Inductive act :=
 | AElect (c : cid) (h bc bu : bytes) (t1 t2 : N)   (* process c: tryAcquireOrRenew + OnStartedLeading; bc/bu = bytes of the record it
                                                        would create / update to; t1,t2 = what the engine's oracle answered (environment) *)
 | AOp (c : cid) (o : hop)
-| AList (c : cid).
+| AList (c : cid)
+| ARestart.                                         (* the engine is closed and reopened on the same files (Badger only) *)
 
 Inductive aobs :=
 | OElect (r : eres) (g w : res) (dump : dstore) (lockb : option bytes)   (* outcome; error classes of Get and of Create/Update; decoded raw engine content afterwards *)
 | OOp (r : hres)
-| OList (hdr : N) (kvs : list (bytes * bytes * N)).
+| OList (hdr : N) (kvs : list (bytes * bytes * N))
+| ORestart.
 
 Record c15_case := mkC15 { c_engine : engine; c_script : list (act * aobs) }.
 
@@ -51,6 +53,7 @@ Definition m_step (e : engine) (s : mstate) (a : act) : mstate * aobs :=
   | AList c =>
       let rev := committed (p_lead (m_p s c)) in
       (s, OList rev (list_at (w_data (m_w s)) rev))
+  | ARestart => (mkM (restart e (m_w s)) (m_p s), ORestart)
   end.
 
 Definition aobs_eqb (a b : aobs) : bool :=
@@ -59,6 +62,7 @@ Definition aobs_eqb (a b : aobs) : bool :=
       eres_eqb r r' && res_eqb g g' && res_eqb w w' && dstore_eqb d d' && opt_eqb beqb l l'
   | OOp r, OOp r' => hres_eqb r r'
   | OList h k, OList h' k' => (h =? h') && list_eqb kv_eqb k k'
+  | ORestart, ORestart => true
   | _, _ => false
   end.
 
@@ -97,7 +101,7 @@ Definition guarded_true (d : dstore) (o : hop) : bool :=
   | _ => false
   end.
 Definition act_cid (a : act) : cid :=
-  match a with AElect c _ _ _ _ _ | AOp c _ | AList c => c end.
+  match a with AElect c _ _ _ _ _ | AOp c _ | AList c => c | ARestart => 0 end.
 
 Definition o15_step (s : ost15) (x : act * aobs) : option ost15 :=
   match x with
@@ -123,6 +127,7 @@ Definition o15_step (s : ost15) (x : act * aobs) : option ost15 :=
                   else Some s
       | None => Some s
       end
+  | (ARestart, ORestart) => Some s
   | _ => None          (* an observation of the wrong shape *)
   end.
 
